@@ -39,7 +39,9 @@ func ParseConfig() (*Config, error) {
 		return nil, fmt.Errorf("failed to load config (%s): %v", envPath, err)
 	}
 
-	c.ParseBlocklists()
+	if err := c.ParseBlocklists(); err != nil {
+		return nil, fmt.Errorf("failed to load config (%s): %v", envPath, err)
+	}
 
 	return &c, nil
 }
